@@ -229,11 +229,35 @@ func main() {
 	t0 := time.Now()
 	wdCtx, wdOut = c, *out
 	startWatchdog(10)
-	fn(c)
+	func() {
+		defer func() {
+			if p := recover(); p != nil {
+				st, ok := p.(starved)
+				if !ok {
+					panic(p)
+				}
+				c.violate(Violation{Suite: "generator", Kind: "property", Class: "starved:" + st.what,
+					Desc:  "the implementation refused 3000 consecutive generated inputs of the encodable domain (" + st.what + "): the operation the property quantifies over fails for (nearly) every input",
+					Input: "", Expected: "ok for inputs of the encodable domain", Actual: "err / panic every time"})
+			}
+		}()
+		fn(c)
+	}()
 	c.rep.WallS = time.Since(t0).Seconds()
 	writeReport(c, *out)
 	if len(c.rep.Violations) > 0 {
 		os.Exit(1)
+	}
+}
+
+// starved: a generator loop that retries until the implementation accepts an input of the encodable domain gave
+// up (under a change of the code that makes such inputs fail every time the loop would never end)
+type starved struct{ what string }
+
+func retryCap(tries *int, what string) {
+	*tries++
+	if *tries > 3000 {
+		panic(starved{what})
 	}
 }
 
